@@ -986,6 +986,9 @@ def msg_to_plain(msg):
             out[f.name] = msg_to_plain(v) if msg.HasField(f.name) else None
         else:
             out[f.name] = bytes(v) if isinstance(v, (bytes, bytearray)) else v
+    if desc.name == "IR" and out.get("cfg", 0) is None:
+        # an absent CFG message and an empty one carry the same content
+        out["cfg"] = {"vertices": [], "edges": []}
     return out
 
 
